@@ -24,6 +24,7 @@ import XsdataModel.Proofs.OccursGroups
 import XsdataModel.Proofs.AttrsField
 import XsdataModel.Proofs.Derive
 import XsdataModel.Proofs.Subst
+import XsdataModel.Proofs.SubstLift
 
 namespace Props.C02
 open Py Xs.Gen
@@ -506,9 +507,11 @@ example : List.count ['y'] [['x']] ≤ 1 :=
 An element reference whose element heads a substitution group stands for a choice between the
 head and the members, `substParticle`; `substituteSite` is what `AddAttributeSubstitutions` makes of
 the reference's attr (its `min`/`max` already the products over its path): the head and one clone per
-member, all optional, all with the reference's `max_occurs`. (Local statement: one reference with
-its group; the composition with the enclosing particles is covered by the correspondence ops
-`gen.subst_sites` / `gen.subst_fields` only.) -/
+member, all optional, all with the reference's `max_occurs`. The first three statements are local
+(one reference with its group); `substitution_*_model` below are the statements for whole content
+models: `substP mem p` is the content model a schema with substitution groups stands for,
+`occursSubst mem (sites p)` what the FLATTEN handlers (`AddAttributeSubstitutions` included) compute
+for the class (`Proofs/SubstLift`). -/
 
 /-- **No field of a substitution group is required**: a valid document may always use another
 member instead. -/
@@ -565,5 +568,94 @@ example : ∃ w, Matches (substParticle ['h'] [['m']] 0 3) w ∧ 2 ≤ w.count [
   substitution_list_needed [['m']] 9 { exSubst with min := 0, max := 3 } (by decide)
     { name := ['m'], index := 1, min := 0, max := 3, path := [⟨.s, 1, 1, 1⟩, ⟨.c, 9, 1, 1⟩],
       choice := some 9, sequence := some 1 } (by decide) (by decide)
+
+/-- a running example: `(d, c)*`, `m` substitutable for `d` -/
+def exMem : Str → List Str := fun n => if n = ['d'] then [['m']] else []
+def exSP : Particle := .seq 0 maxsize [.elem ['d'] 1 1, .elem ['c'] 1 1]
+
+theorem exSP_substP : substP exMem exSP =
+    .seq 0 maxsize [.choice 1 1 [.elem ['d'] 1 1, .elem ['m'] 1 1], .elem ['c'] 1 1] := by
+  simp [substP, substPList, exMem, exSP]
+
+theorem exSP_occurs : occursSubst exMem (sites exSP) = [
+    { name := ['d'], index := 0, min := 0, max := maxsize,
+      path := [⟨.s, 1, 0, maxsize⟩, ⟨.c, 1000, 1, 1⟩], choice := some 1000, sequence := some 1 },
+    { name := ['m'], index := 0, min := 0, max := maxsize,
+      path := [⟨.s, 1, 0, maxsize⟩, ⟨.c, 1000, 1, 1⟩], choice := some 1000, sequence := some 1 },
+    { name := ['c'], index := 1, min := 0, max := maxsize, path := [⟨.s, 1, 0, maxsize⟩],
+      choice := none, sequence := some 1 }] := by
+  decide
+
+/-- **Substitution groups, whole content models: a non-list field never sees its element twice.**
+For every content model `p`, every assignment `mem` of members to element references such that the
+field names (element names and member names) are pairwise distinct, every word of the content
+model the schema stands for and every field of the class. -/
+theorem substitution_nonlist_sound_model (mem : Str → List Str) (p : Particle)
+    (hd : (names (substP mem p)).Nodup) (w : List Str) (hw : Matches (substP mem p) w)
+    (f : Site) (hf : f ∈ occursSubst mem (sites p)) (hl : f.isList = false) :
+    w.count f.name ≤ 1 :=
+  subst_nonlist_core mem p hd w hw f hf hl
+
+/-- **… a required non-list field finds its element exactly once** (a field of a substitution
+group is never required, `substitution_never_required`; the others keep their `min`). -/
+theorem substitution_required_sound_model (mem : Str → List Str) (p : Particle)
+    (hd : (names (substP mem p)).Nodup) (hwf : wf p = true) (w : List Str)
+    (hw : Matches (substP mem p) w)
+    (f : Site) (hf : f ∈ occursSubst mem (sites p)) (hr : f.min ≥ 1) (hl : f.isList = false) :
+    w.count f.name = 1 :=
+  subst_required_core mem p hd hwf w hw f hf hr hl
+
+/-- **… and a list field is needed.** -/
+theorem substitution_list_needed_model (mem : Str → List Str) (p : Particle)
+    (hd : (names (substP mem p)).Nodup) (hwf : wf p = true) (hlive : live p = true)
+    (f : Site) (hf : f ∈ occursSubst mem (sites p)) (hl : f.isList = true) :
+    ∃ w, Matches (substP mem p) w ∧ 2 ≤ w.count f.name :=
+  subst_list_needed_core mem p hd hwf hlive f hf hl
+
+/-- `(x, d?)` with `m` substitutable for `d` -/
+def exSQ : Particle := .seq 1 1 [.elem ['x'] 1 1, .elem ['d'] 0 1]
+
+theorem exSQ_matches : Matches (substP exMem exSQ) [['x'], ['m']] := by
+  have hx : Matches (.elem ['x'] 1 1) [['x']] := matches_elem.2 ⟨1, by decide, rfl⟩
+  have hm : Matches (.choice 0 1 [.elem ['d'] 1 1, .elem ['m'] 1 1]) [['m']] :=
+    matches_choice.2 ⟨[[['m']]], by decide, (by
+      intro y hy
+      rw [List.mem_singleton.1 hy]
+      exact choiceOnce_cons.2 (Or.inr (choiceOnce_cons.2 (Or.inl
+        (matches_elem.2 ⟨1, by decide, rfl⟩))))), rfl⟩
+  have : substP exMem exSQ =
+      .seq 1 1 [.elem ['x'] 1 1, .choice 0 1 [.elem ['d'] 1 1, .elem ['m'] 1 1]] := by
+    simp [substP, substPList, exMem, exSQ]
+  rw [this]
+  exact matches_seq.2 ⟨[[['x'], ['m']]], by decide, (by
+    intro z hz
+    rw [List.mem_singleton.1 hz]
+    exact seqOnce_cons.2 ⟨[['x']], [['m']], hx,
+      seqOnce_cons.2 ⟨[['m']], [], hm, seqOnce_nil.2 rfl, rfl⟩, rfl⟩), rfl⟩
+
+theorem exSQ_occurs : occursSubst exMem (sites exSQ) = [
+    { name := ['x'], index := 0, min := 1, max := 1, path := [⟨.s, 1, 1, 1⟩], sequence := some 1 },
+    { name := ['d'], index := 1, min := 0, max := 1, path := [⟨.s, 1, 1, 1⟩, ⟨.c, 1001, 1, 1⟩],
+      choice := some 1001, sequence := some 1 },
+    { name := ['m'], index := 1, min := 0, max := 1, path := [⟨.s, 1, 1, 1⟩, ⟨.c, 1001, 1, 1⟩],
+      choice := some 1001, sequence := some 1 }] := by
+  decide
+
+/-- the hypotheses are satisfiable: the member's field and the required field `x`, word `[x, m]` -/
+example : List.count ['m'] [['x'], ['m']] ≤ 1 :=
+  substitution_nonlist_sound_model exMem exSQ (by decide) _ exSQ_matches
+    { name := ['m'], index := 1, min := 0, max := 1, path := [⟨.s, 1, 1, 1⟩, ⟨.c, 1001, 1, 1⟩],
+      choice := some 1001, sequence := some 1 } (by rw [exSQ_occurs]; decide) (by decide)
+
+example : List.count ['x'] [['x'], ['m']] = 1 :=
+  substitution_required_sound_model exMem exSQ (by decide) (by decide) _ exSQ_matches
+    { name := ['x'], index := 0, min := 1, max := 1, path := [⟨.s, 1, 1, 1⟩], sequence := some 1 }
+    (by rw [exSQ_occurs]; decide) (by decide) (by decide)
+
+example : ∃ w, Matches (substP exMem exSP) w ∧ 2 ≤ w.count ['m'] :=
+  substitution_list_needed_model exMem exSP (by decide) (by decide) (by decide)
+    { name := ['m'], index := 0, min := 0, max := maxsize,
+      path := [⟨.s, 1, 0, maxsize⟩, ⟨.c, 1000, 1, 1⟩], choice := some 1000, sequence := some 1 }
+    (by rw [exSP_occurs]; decide) (by decide)
 
 end Props.C02
